@@ -76,26 +76,25 @@ def known_cause(payload):
 EXTRA_PROPS = ["UPVerif.Props.C07Lift", "UPVerif.Props.C07Ground", "UPVerif.Props.C07BTQR", "UPVerif.Props.C07NCR"]
 
 MANIFEST = {
-    "level_text": ("Lean 4 theorems (Props/C07.lean): a generic backward-simulation theorem over abstract transition systems "
-                   "(every valid plan of the original has a compiled counterpart of the same length, +1 with a goal action, mapping "
-                   "back to it; hence an unsolvable compiled problem implies an unsolvable original), closed under composition, "
-                   "instantiated for the models of ConditionalEffectsRemover, StateInvariantsRemover and the action split of "
-                   "DisjunctiveConditionsRemover (same plan length); Props/C07Ground.lean: the Grounder (prune_actions False and True) "
-                   "on ALL instances of lifted actions — static-fluent pruning removes only instances whose preconditions are false "
-                   "in every state that agrees with the initial state on the static fluents (and every reachable state does), every "
-                   "applicable instance has its ground action, completeness with the same plan length, and a kernel-checked "
-                   "refutation of the statement without the hypothesis excluding statically conflicting instances; a kernel-checked refutation of the full statement for "
-                   "ConditionalEffectsRemover on a concrete problem (effect-less variant pruned); five compiler models tied to /repo "
-                   "by a differential comparison of compiled problems; for ALL ten compilers and six pipelines the property itself "
-                   "is decided on the real code by an exhaustive end-to-end differential (every valid original plan up to length 3/4)."),
-    "level_note": ("Partial: Props/C07Lift.lean lifts the backward simulations to ALL action instances (same hypotheses as "
-                   "Props/C06Lift.lean; k+1 bound with goal actions included); quantifier-free invariants; the Grounder theorems "
-                   "(Props/C07Ground.lean) cover all instances, with one-directional exactness of the simplifier parameter and "
-                   "decidable well-formedness checks (`groundOKc`, `pruneWF`); no theorem for BoundedTypesRemover, QuantifiersRemover, "
-                   "NegativeConditionsRemover, UsertypeFluentsRemover, TrajectoryConstraintsRemover, "
-                   "UndefinedInitialNumericRemover; the pruning of effect-less variants (documented, relied on by the test-suite) "
-                   "and of statically conflicting variants makes the full statement false: open findings, the theorems carry "
-                   "decidable hypotheses that exclude exactly these causes."),
+    "level_text": ("Lean 4 theorems. Props/C07.lean: a generic backward-simulation theorem over abstract transition systems (every "
+                   "valid original plan has a compiled counterpart of the same length, +1 with a goal action, mapping back to it; "
+                   "an unsolvable compiled problem implies an unsolvable original), closed under composition, instantiated for "
+                   "ConditionalEffectsRemover, StateInvariantsRemover and DisjunctiveConditionsRemover (k+1 with goal actions), "
+                   "with a kernel-checked refutation of the full statement for CER (effect-less variant pruned). "
+                   "Props/C07Lift.lean: the same on ALL action instances. Props/C07Ground.lean: the Grounder on all instances "
+                   "(static-fluent pruning removes only instances inapplicable in every state agreeing with the initial state on "
+                   "the static fluents; every applicable instance has its ground action). Props/C07BTQR.lean: BoundedTypesRemover, "
+                   "QuantifiersRemover, the three-stage pipeline. Props/C07NCR.lean: NegativeConditionsRemover (same plans, "
+                   "position by position). Seven compiler models tied to /repo by a differential comparison of compiled problems; "
+                   "for ALL ten compilers and six pipelines the property itself is decided on the real code by an exhaustive end- "
+                   "to-end differential (every valid original plan up to length 3/4). "),
+    "level_note": ("Partial: hypotheses as stated for C06 (Lift: decidable per-problem conditions and walker exactness on "
+                   "instances; Grounder: one-directional simplifier exactness, groundOKc, pruneWF; BTR/QR/NCR: parameterless "
+                   "actions). The pruning of effect-less variants (documented, relied on by the test-suite), of statically "
+                   "conflicting variants / instances, the add-after-delete of NegativeConditionsRemover and the reads that "
+                   "simplification removes in UndefinedInitialNumericRemover make the full statement false: open findings, the "
+                   "theorems carry decidable hypotheses that exclude exactly these causes (kernel-checked refutations without "
+                   "them). No theorem for UsertypeFluentsRemover, TrajectoryConstraintsRemover, UndefinedInitialNumericRemover. "),
     "technique": "Lean 4 proof (simulation frame + per-compiler step lemmas) + model/code correspondence + exhaustive end-to-end differential",
     "design_ref": "DESIGN.md §5 C06/C07",
 }
